@@ -416,6 +416,54 @@ func oracle(in input, obs []stepObs) (key, what string) {
 			prevT = b.Data[3]
 		}
 	}
+	// change descriptions and links, on every history (pooled names too): the Objects of a
+	// batch are exactly the entries "<change>/<Resource>:<ns/name>" of the accepted events
+	// that landed in it, each once (two events of the same change kind on one object share an
+	// entry, events of different kinds do not), and its Links exactly their names
+	for k, b := range batches {
+		wantObj, wantLink := map[string]bool{}, map[string]bool{}
+		for i, s := range in.Steps {
+			if s.Op == "swap" || s.Op == "generic" || batchOfStep[i] != k || obs[i].Accepted == 0 {
+				continue
+			}
+			res, name := describe(s)
+			wantObj[map[string]string{"create": "add", "update": "update", "delete": "del"}[s.Op]+"/"+res+":"+name] = true
+			wantLink[res+" "+name] = true
+		}
+		seen := map[string]bool{}
+		for _, e := range b.Objects {
+			if seen[e] {
+				return "description", fmt.Sprintf("batch %d lists the change description %s twice", k, e)
+			}
+			seen[e] = true
+			if !wantObj[e] {
+				return "description", fmt.Sprintf("batch %d lists the change description %s but no accepted event between its two swaps is that change of that object", k, e)
+			}
+		}
+		for _, e := range hx.SortedKeys(wantObj) {
+			if !seen[e] {
+				return "description", fmt.Sprintf("batch %d lacks the change description %s of an accepted event that landed in it (it lists %v)", k, e, b.Objects)
+			}
+		}
+		seenL := map[string]bool{}
+		for res, ns := range b.Links {
+			for _, nm := range ns {
+				key := res + " " + nm
+				if seenL[key] {
+					return "link", fmt.Sprintf("batch %d links %s twice", k, key)
+				}
+				seenL[key] = true
+				if !wantLink[key] {
+					return "link", fmt.Sprintf("batch %d links %s but no accepted event between its two swaps touched it", k, key)
+				}
+			}
+		}
+		for _, e := range hx.SortedKeys(wantLink) {
+			if !seenL[e] {
+				return "link", fmt.Sprintf("batch %d lacks the link %s of an accepted event that landed in it", k, e)
+			}
+		}
+	}
 	if !in.Unique {
 		return "", ""
 	}
@@ -514,6 +562,25 @@ func oracle(in input, obs []stepObs) (key, what string) {
 		}
 	}
 	return "", ""
+}
+
+// describe gives the resource type and the name under which an event is described:
+// namespace/name (name alone for cluster scoped objects), an EndpointSlice under the name of
+// its service (label kubernetes.io/service-name).
+func describe(s stepIn) (res, name string) {
+	res = map[string]string{"ConfigMap": "ConfigMap", "Service": "Service", "Endpoints": "Endpoints", "EndpointSlice": "Endpoints",
+		"Secret": "Secret", "Pod": "Pod", "Ingress": "Ingress", "IngressClass": "IngressClass",
+		"GatewayA2": "Gateway", "GatewayB1": "Gateway", "GatewayV1": "Gateway",
+		"GatewayClassA2": "GatewayClass", "GatewayClassB1": "GatewayClass", "GatewayClassV1": "GatewayClass",
+		"HTTPRouteA2": "HTTPRoute", "HTTPRouteB1": "HTTPRoute", "HTTPRouteV1": "HTTPRoute", "TCPRouteA2": "TCPRoute"}[s.Kind]
+	name = s.New.Name
+	if s.Kind == "EndpointSlice" && s.New.Svc != "" {
+		name = s.New.Svc
+	}
+	if s.New.NS != "" {
+		name = s.New.NS + "/" + name
+	}
+	return
 }
 
 // ---------------------------------------------------------------- generator
@@ -723,14 +790,22 @@ func corpus() []input {
 	c3 := &obj{ID: 6, NS: "ingress", Name: "cfg", Gen: 1, Data: 0}
 	t1 := &obj{ID: 7, NS: "ingress", Name: "tcp", Gen: 1, Data: 5}
 	s1 := &obj{ID: 8, NS: "default", Name: "tls", Gen: 0}
-	return []input{{Cfg: cfg, Steps: []stepIn{
-		{Op: "create", Kind: "Ingress", New: i1}, {Op: "update", Kind: "ConfigMap", Old: c1, New: c1}, {Op: "swap"},
-		{Op: "update", Kind: "Ingress", Old: i1, New: i2}, {Op: "update", Kind: "Secret", Old: s1, New: s1}, {Op: "swap"},
-		{Op: "update", Kind: "ConfigMap", Old: c1, New: c2}, {Op: "create", Kind: "ConfigMap", New: t1}, {Op: "swap"},
-		{Op: "update", Kind: "ConfigMap", Old: c2, New: c3}, {Op: "update", Kind: "Ingress", Old: i2, New: i3}, {Op: "swap"}, {Op: "swap"},
-		// deleting the global ConfigMap delivers empty (non-nil) data
-		{Op: "delete", Kind: "ConfigMap", New: c3}, {Op: "swap"}, {Op: "delete", Kind: "ConfigMap", New: t1}, {Op: "swap"}, {Op: "swap"},
-	}}}
+	m1 := &obj{ID: 101, NS: "ns1", Name: "ing1", Gen: 1, Valid: true}
+	m2 := &obj{ID: 102, NS: "ns1", Name: "ing1", Gen: 1, Valid: true}
+	sc := &obj{ID: 103, NS: "ns1", Name: "tls", Gen: 0}
+	return []input{
+		// an ingress created, deleted and created again between two swaps: three descriptions
+		{Cfg: cfg, Steps: []stepIn{{Op: "swap"}, {Op: "create", Kind: "Ingress", New: m1}, {Op: "delete", Kind: "Ingress", New: m1}, {Op: "create", Kind: "Ingress", New: m2}, {Op: "swap"}}},
+		// a secret created then updated
+		{Cfg: cfg, Steps: []stepIn{{Op: "create", Kind: "Secret", New: sc}, {Op: "update", Kind: "Secret", Old: sc, New: sc}, {Op: "swap"}}},
+		{Cfg: cfg, Steps: []stepIn{
+			{Op: "create", Kind: "Ingress", New: i1}, {Op: "update", Kind: "ConfigMap", Old: c1, New: c1}, {Op: "swap"},
+			{Op: "update", Kind: "Ingress", Old: i1, New: i2}, {Op: "update", Kind: "Secret", Old: s1, New: s1}, {Op: "swap"},
+			{Op: "update", Kind: "ConfigMap", Old: c1, New: c2}, {Op: "create", Kind: "ConfigMap", New: t1}, {Op: "swap"},
+			{Op: "update", Kind: "ConfigMap", Old: c2, New: c3}, {Op: "update", Kind: "Ingress", Old: i2, New: i3}, {Op: "swap"}, {Op: "swap"},
+			// deleting the global ConfigMap delivers empty (non-nil) data
+			{Op: "delete", Kind: "ConfigMap", New: c3}, {Op: "swap"}, {Op: "delete", Kind: "ConfigMap", New: t1}, {Op: "swap"}, {Op: "swap"},
+		}}}
 }
 
 // ---------------------------------------------------------------- Coq printing
